@@ -2,7 +2,7 @@
    and with covariance updating while no floor is active (ln det through a Cholesky factor, no determinant theory); the rank-1 theorems
    (scalar i-vector, solver used on 1x1 matrices only) are kept as the special case with closed-form EM steps. *)
 From Coq Require Import Reals List.
-From BLE Require Import Num.InstR Model.IVector Proofs.RLemmas Proofs.IVectorR Proofs.JFARank1 Proofs.IVRank1 Proofs.IVRank1Sigma Proofs.IVGeneral Proofs.IVGeneralSigma.
+From BLE Require Import Num.InstR Model.IVector Proofs.RLemmas Proofs.IVectorR Proofs.JFARank1 Proofs.IVRank1 Proofs.IVRank1Sigma Proofs.IVGeneral Proofs.IVGeneralSigma Proofs.IVGeneralZero.
 Import ListNotations IR.
 Open Scope R_scope.
 
@@ -153,3 +153,25 @@ Theorem C10_training_entry_point_with_sigma_monotone_any_dimension (inv chol : l
   iv_marginal2_t inv chol t m X <= iv_marginal2_t inv chol t m' X.
 Proof. exact (iv_em_iter_sigma_monotone_general inv chol C D t floor m m' X). Qed.
 Print Assumptions C10_training_entry_point_with_sigma_monotone_any_dimension.
+
+(* "components with zero count": a component that receives no count (and no first-order statistics) from any training utterance takes the
+   other branch of the code's M-step (T_c := 0) and does not enter the marginal likelihood; the iteration is monotone with such
+   components present (fixed covariances). *)
+Theorem C10_training_iteration_monotone_with_unoccupied_components (inv chol : list (list R) -> list (list R)) (C D t : nat) (floor : R) (m : ivm) (X : list gstat) :
+  ivm_ok C D t m -> Forall (IVectorR.gstat_ok C D) X ->
+  oracles_ok inv chol t m X ->
+  let st := e_step inv C D t m X in
+  (forall c, (c < C)%nat ->
+     (mat_any (nth c (a_w2 st) []) = true /\ inv_ok inv t (V.transpose t (nth c (a_w2 st) [])))
+     \/ unoccupied D X c) ->
+  let m' := m_step inv D t false floor m st in
+  oracles_ok inv chol t m' X ->
+  iv_marginal_t inv chol t m X <= iv_marginal_t inv chol t m' X.
+Proof. exact (iv_em_monotone_general_zero_counts inv chol C D t floor m X). Qed.
+Print Assumptions C10_training_iteration_monotone_with_unoccupied_components.
+
+Theorem C10_unoccupied_component_takes_the_zero_branch (inv : list (list R) -> list (list R)) (C D t : nat) (m : ivm) (X : list gstat) (c : nat) :
+  ivm_ok C D t m -> Forall (IVectorR.gstat_ok C D) X -> (c < C)%nat -> unoccupied D X c ->
+  mat_any (nth c (a_w2 (e_step inv C D t m X)) []) = false.
+Proof. exact (unoccupied_takes_zero_branch inv C D t m X c). Qed.
+Print Assumptions C10_unoccupied_component_takes_the_zero_branch.
